@@ -249,9 +249,9 @@ def r3_wellformed(ctx, chk, rule="C11.3"):
             continue
         where = "roberta_generator.py %s" % G.func.name
         nb = len(G.blocks)
-        cases = position_cases()
+        cases = position_cases(getattr(G, "post", None) is not None)
         # lengths
-        case = cases[-1]
+        case = position_cases()[-1]
         try:
             lens = {}
             for key in ("rewards", "players"):
@@ -289,6 +289,9 @@ def r3_wellformed(ctx, chk, rule="C11.3"):
                             continue
                         n_ent += 1
                         ctxt = "game %s block %d (%s), case %s, arrows %d, loose %d" % (gname, b, block.builder, cs.name, m, lt)
+                        if entry is not None and entry[0] == "pyentry":
+                            # post-processed entry: back to terms for the checks below
+                            entry = ("list", tuple(("tup", ((C(k) if isinstance(k, str) else ("polyval", k)), ("polyval", tp))) for k, tp in entry[1]))
                         if entry is None or entry[0] != "list" or len(entry[1]) == 0:
                             n_bad += 1
                             chk.violation(rule, where, "%s: no transition is emitted for this tile (a state without transitions is rejected as 'Missing transitions', or the lists go out of step)" % ctxt,
@@ -418,7 +421,16 @@ def r5_manual_entry(ctx, chk, rule="C11.5"):
         chk.undecided(rule, f.where(), "write_robots call not found")
         return
     g = ctx.func("roberta_generator.py::write_robots")
-    args = dict(zip(g.params, wr[0][2][2]))
+    pos = []
+    for a in wr[0][2][2]:
+        if a[0] == "star" and a[1][0] in ("tup", "list"):
+            pos.extend(a[1][1])          # write_robots(..., *probs) with a literal tuple
+        elif a[0] == "star":
+            chk.undecided(rule, f.where(), "write_robots is called with `*%s`, whose elements are not statically known" % show(a[1])[:60])
+            return
+        else:
+            pos.append(a)
+    args = dict(zip(g.params, pos))
     args.update({k: v for k, v in wr[0][2][3] if k})
     tables = [("v", p) for p in f.params if p in ("moves", "rewards", "loose_tiles")]
     rows = [("call", "len", (t,), ()) for t in tables]
@@ -432,6 +444,12 @@ def r5_manual_entry(ctx, chk, rule="C11.5"):
                       found="length=%s, width=%s" % (show(L), show(W)), construct="create_sg_from_board transposed dimensions")
     else:
         chk.undecided(rule, f.where(), "dimensions passed to write_robots not recognised: length=%s, width=%s" % (show(L) if L else None, show(W) if W else None))
+    for pr in ("prob_tile_break", "prob_robot_break", "prob_light_break"):
+        if pr in f.params and args.get(pr) != ("v", pr):
+            chk.violation(rule, f.where(), "write_robots receives `%s` as %s: the emitted games use the wrong break probability" % (show(args.get(pr)) if args.get(pr) else None, pr),
+                          expected=pr, found=show(args.get(pr)) if args.get(pr) else "none", construct="create_sg_from_board probability %s" % pr)
+        elif pr in f.params:
+            chk.ok(rule, f.where(), "write_robots(%s=%s)" % (pr, pr))
     for t in ("moves", "rewards", "loose_tiles"):
         if args.get(t) != ("v", t):
             chk.violation(rule, f.where(), "write_robots receives `%s` as %s" % (show(args.get(t)) if args.get(t) else None, t), expected=t, found=show(args.get(t)) if args.get(t) else "none",
@@ -494,7 +512,9 @@ def run(ctx, chk):
     ps = C08.run_pairings(ctx, chk, rule="C11.pre:C08.1")
     for gname, p in ps.items():
         C08.structure_rules(ctx, chk, p.G, gname, p, "C11.pre:C08.2")
-    from . import C15
+    from . import C15, C09
+    C09.r123_check_game(ctx, chk, "C11.pre:C09.1")          # the solver's validation accepts every well-formed game
+    C09.r4_check_next_states(ctx, chk, "C11.pre:C09.1")
     C15.r1_ranges(ctx, chk, "C11.pre:C15.1")
     C15.r2_order(ctx, chk, "C11.pre:C15.2")
     chk.require_instances("C11.1", 2)
